@@ -42,7 +42,13 @@ LEVEL_TEXT = (
 )
 LEVEL_NOTE = "Exact state key (all entries), so de-duplication is sound; histories longer than the bound and values outside the alphabet are not covered."
 
-PATTERNS = {"all2": "all2", "232": "2323", "522": "5222"}
+PATTERNS = {"all2": "all2", "232": "2323", "522": "5222", "232f": "2323"}
+FAMILY = {"232f": "falsy"}  # the same keys over items that are falsy in Python (0, "")
+
+
+def items_of(pattern):
+    return S.items_for(PATTERNS[pattern], family=FAMILY.get(pattern, "std"))
+
 DIMS = "abc"
 
 # key alphabet: per-dimension selector lists (see checks/c06.py) + key form
@@ -68,6 +74,19 @@ KEYS = [
     ("dict-letter", [["list", ["a2", "a1"]], ["none"], ["none"]]),
     ("tuple", [["list", ["a1", "a2"]], ["none"], ["item", "c1"]]),
     ("dict-letter", [["list", ["a2"]], ["item", "b2"], ["list", ["c2", "c1"]]]),
+    # single items of several dimensions named in another order than the target stores them
+    ("tuple-rev", [["item", "a2"], ["item", "b1"], ["none"]]),
+    ("tuple-rev", [["item", "a1"], ["none"], ["item", "c2"]]),
+    ("dict-letter-rev", [["item", "a1"], ["none"], ["item", "c2"]]),
+    ("dict-letter-rev", [["item", "a2"], ["item", "b2"], ["none"]]),
+    ("dict-letter-rev", [["none"], ["item", "b1"], ["item", "c1"]]),
+    ("dict-letter-rev", [["item", "a1"], ["sub", ["b2", "b1"]], ["item", "c2"]]),
+    # item lists handed over as one-shot iterators
+    ("dict-iter", [["list", ["a2", "a1"]], ["none"], ["none"]]),
+    ("dict-iter", [["item", "a1"], ["none"], ["list", ["c1", "c2"]]]),
+    # several items of ONE dimension given as a plain tuple (first item first)
+    ("tuple", [["list", ["a1", "a2"]], ["none"], ["none"]]),
+    ("tuple", [["none"], ["list", ["b1", "b2"]], ["none"]]),
 ]
 
 
@@ -83,8 +102,34 @@ for _sel in (["a1", "a2", "a5", "a4"], ["a2", "a4", "a3", "a5"], ["a1", "a3", "a
     KEYS_LONG.append(("dict-letter", [["sub", _sel], ["sub", ["b2", "b1"]], ["none"]]))
 
 
+def _translate(sel, items):
+    """std labels ('a2' = second item of a) -> the items of the pattern's label family"""
+    def tr(lab):
+        return items[lab[0]][int(lab[1:]) - 1]
+
+    out = []
+    for s in sel:
+        if s[0] == "item":
+            out.append(["item", tr(s[1])])
+        elif s[0] in ("sub", "list"):
+            out.append([s[0], [tr(x) for x in s[1]]])
+        else:
+            out.append(list(s))
+    return out
+
+
+_KEYS_CACHE = {}
+
+
 def keys_for(pattern):
-    return KEYS_LONG if pattern == "522" else KEYS
+    if pattern == "522":
+        return KEYS_LONG
+    if pattern in FAMILY:
+        if pattern not in _KEYS_CACHE:
+            items = items_of(pattern)
+            _KEYS_CACHE[pattern] = [(form, _translate(sel, items)) for form, sel in KEYS]
+        return _KEYS_CACHE[pattern]
+    return KEYS
 
 
 def region_of(m, sel):
@@ -96,7 +141,7 @@ def region_of(m, sel):
 def rhs_alphabet(pattern, key_idx):
     """rhs specs applicable to a key"""
     form, sel = keys_for(pattern)[key_idx]
-    items = S.items_for(PATTERNS[pattern])
+    items = items_of(pattern)
     m = R.build(tuple(DIMS), items, lambda lab: 0.0)
     region, src, has_list = region_of(m, sel)
     out = [dict(kind="number"), dict(kind="int-number")]
@@ -195,7 +240,7 @@ class State:
 def build_state(pattern):
     st = State()
     st.pattern = pattern
-    st.items = S.items_for(PATTERNS[pattern])
+    st.items = items_of(pattern)
     f = S.val_base(4, 1)(tuple(DIMS), st.items)
     st.X = S.flodym_array(tuple(DIMS), st.items, f, "C")
     st.m = R.build(tuple(DIMS), st.items, f)
@@ -294,6 +339,8 @@ def apply_op(st, op, check):
     def fail(kind, what, **kw):
         return "fail", dict(case=dict(pattern=st.pattern), tags=dict(kind=kind, rhs=op["rhs"]["kind"], note=op["rhs"].get("note", "")), what=f"{desc}: {what}", **kw)
 
+    if form == "dict-iter" and status == "raised":
+        eff = None  # an implementation may insist on real lists; then nothing may have changed
     if eff == "unspecified":
         # nested python lists under ...: the statement does not say; whatever happens, the invariant must hold
         eff = {lab: 1000.0 * op["idx"] for lab in region.labels()} if status == "ok" else None
